@@ -761,3 +761,77 @@ pub fn receiver_auto_credit_dispose(n: u32, processed_before: u32, k: u32, singl
     std::mem::forget(recv); // its Drop would send a detach
     out
 }
+
+/* ------------------------------ link handles ------------------------------- */
+
+impl VSession {
+    /// `Session::allocate_link` for a local receiver link: the output handle it was given
+    pub fn allocate_receiver_link(&mut self, name: &str) -> Result<u32, ()> {
+        let (tx, rx) = mpsc::channel(8);
+        std::mem::forget(rx); // keep the link's end of the channel open
+        let flow_state = Arc::new(LinkFlowState::receiver(inner(VFlowInner {
+            initial_delivery_count: 0,
+            delivery_count: 0,
+            link_credit: 0,
+            available: 0,
+            drain: false,
+        })));
+        let relay = crate::link::LinkRelay::new_receiver(
+            tx,
+            flow_state,
+            Arc::new(parking_lot::RwLock::new(None)),
+            Default::default(),
+        );
+        self.0
+            .allocate_link(name.to_string(), Some(relay))
+            .map(|h| h.0)
+            .map_err(|_| ())
+    }
+    /// the peer's attach for link `name` on a handle of the peer's choice
+    pub fn on_incoming_attach(&mut self, name: &str, peer_handle: u32) -> Option<bool> {
+        let attach = fe2o3_amqp_types::performatives::Attach {
+            name: name.to_string(),
+            handle: Handle(peer_handle),
+            role: fe2o3_amqp_types::definitions::Role::Sender,
+            snd_settle_mode: Default::default(),
+            rcv_settle_mode: Default::default(),
+            source: None,
+            target: None,
+            unsettled: None,
+            incomplete_unsettled: false,
+            initial_delivery_count: Some(0),
+            max_message_size: None,
+            offered_capabilities: None,
+            desired_capabilities: None,
+            properties: None,
+        };
+        let mut fut = Box::pin(self.0.on_incoming_attach(attach));
+        match poll_once(fut.as_mut()) {
+            std::task::Poll::Ready(r) => Some(r.is_ok()),
+            std::task::Poll::Pending => None,
+        }
+    }
+    /// our detach for the link on OUR handle
+    pub fn on_outgoing_detach(&mut self, our_handle: u32) {
+        let _ = self
+            .0
+            .on_outgoing_detach(fe2o3_amqp_types::performatives::Detach {
+                handle: Handle(our_handle),
+                closed: true,
+                error: None,
+            });
+    }
+    /// the peer's detach, carrying the PEER's handle
+    pub fn on_incoming_detach(&mut self, peer_handle: u32) -> Option<bool> {
+        let detach = fe2o3_amqp_types::performatives::Detach {
+            handle: Handle(peer_handle),
+            closed: true,
+            error: None,
+        };
+        let mut fut = Box::pin(self.0.on_incoming_detach(detach));
+        match poll_once(fut.as_mut()) {
+            std::task::Poll::Ready(r) => Some(r.is_ok()),
+            std::task::Poll::Pending => None,
+        }
+    }
+}
